@@ -479,7 +479,7 @@ Definition list_key_rings : prog (res (list N)) :=
                     end));
   Done (match fst r with Ok _ => Ok (snd r) | e => err_of e end).
 
-(** ListKeys (fixed: rings without a current key are skipped): (ring, current seqnum) *)
+(** ListKeys (fixed: rings without a current key, or whose current key is destroyed, are skipped): (ring, current seqnum) *)
 Fixpoint list_keys_loop (rids : list N) (acc : list (N * Z)) : prog (res (list (N * Z))) :=
   match rids with
   | [] => Done (Ok (rev acc))
@@ -490,7 +490,10 @@ Fixpoint list_keys_loop (rids : list N) (acc : list (N * Z)) : prog (res (list (
           match current_key (snd o) with
           | Ok s =>
               match key_with_seqnum (h_data (snd o)) s with
-              | Some _ => list_keys_loop rest ((rid, s) :: acc)
+              | Some k =>
+                  (* fix 935a452: a ring whose Current key is a destroyed marker is skipped *)
+                  if N.eqb (k_state k) KSW_DESTROYED then list_keys_loop rest acc
+                  else list_keys_loop rest ((rid, s) :: acc)
               | None => Done (Err E_KEY_NOT_EXIST)
               end
           | _ => list_keys_loop rest acc
